@@ -24,7 +24,7 @@ import (
 // old entry. A must not be answered from it. Sleeping longer than planned (busy machine) only makes the entry older.
 
 type LookupCase struct {
-	ExtraMs int  // waited beyond 2.3 s
+	ExtraMs int // waited beyond 2.3 s
 }
 
 func checkLookupClock(c LookupCase) vk.Verdict {
